@@ -87,6 +87,8 @@ type Walker struct {
 	cells     []*Cell
 	freshN    map[string]int
 	symCells  map[string]*Cell
+	symIdx    map[string]*Term // symbolic index selectors ("#b") -> the index term
+	InitPkg   *ssa.Package     // set while evaluating a package initialiser: its variables are concrete cells
 	defers    [][]deferred
 	aborted   string
 	abortKind string
@@ -442,9 +444,49 @@ func (w *Walker) load(addr *Term, instr ssa.Instruction, fn *ssa.Function, depth
 	}
 	v := addr.Cell.Val
 	for _, s := range addr.Path {
+		if it, ok := w.symIdx[s]; ok && strings.HasPrefix(s, "#") && v.Op == "slicev" {
+			v = &Term{Op: "index", Args: []*Term{v, it}, Typ: elemType(v.Typ)}
+			continue
+		}
 		v = project(v, s)
 	}
-	return v
+	return w.dispatchIndex(v)
+}
+
+// dispatchIndex: an element of a table of functions selected by a symbolic index is walked like the map form
+// of the same table (tableLookup): the chain  if i == k1 {f1} else if i == k2 {f2} ... else nil.
+func (w *Walker) dispatchIndex(v *Term) *Term {
+	if v == nil || v.Op != "index" || len(v.Args) != 2 || v.Args[0].Op != "slicev" || v.Args[1].IsConst() {
+		return v
+	}
+	if _, isFn := elemType(v.Args[0].Typ).Underlying().(*types.Signature); !isFn {
+		return v
+	}
+	els := v.Args[0].Args
+	n := 0
+	for _, e := range els {
+		switch {
+		case e.Op == "closure":
+			n++
+		case e.IsNilConst():
+		default:
+			return v
+		}
+	}
+	if n == 0 || n > 128 {
+		return v
+	}
+	idx := v.Args[1]
+	for k, e := range els {
+		if e.Op != "closure" {
+			continue
+		}
+		cmp := w.binop(token.EQL, idx, mkInt(int64(k), idx.Typ), types.Typ[types.Bool])
+		if w.decide(cmp) {
+			return e
+		}
+	}
+	return mkNil(elemType(v.Args[0].Typ))
 }
 
 func (w *Walker) store(addr, v *Term, instr ssa.Instruction, fn *ssa.Function, depth int) {
@@ -752,6 +794,18 @@ func (w *Walker) val(fr *frame, v ssa.Value) *Term {
 		name := shortPkg(x.Pkg.Pkg) + "." + x.Name()
 		g := &Term{Op: "global", Name: name, Typ: x.Type()}
 		c := w.symCell(g)
+		if w.InitPkg != nil && x.Pkg == w.InitPkg && c.Val.Op == "deref" {
+			// package initialisation: the variable starts at its zero value and is written by the walk itself
+			et := x.Type().Underlying().(*types.Pointer).Elem()
+			if x.Name() == "init$guard" {
+				c.Val = mkBool(false)
+			} else {
+				c.Val = zeroOf(et)
+			}
+			c.Sym = false
+			c.Heap = true
+			return &Term{Op: "ptr", Cell: c, Typ: x.Type()}
+		}
 		if c.Val.Op == "deref" {
 			c.Val = &Term{Op: "global", Name: name, Typ: x.Type().Underlying().(*types.Pointer).Elem()}
 			if img, ok := stdGlobalBytes[name]; ok {
@@ -768,6 +822,10 @@ func (w *Walker) val(fr *frame, v ssa.Value) *Term {
 			}
 			if fv := w.foldGlobal(x); fv != nil {
 				c.Val = fv
+			} else if w.InitPkg == nil && w.P.dispatchTable(x) == nil {
+				if iv := w.initValue(x); iv != nil {
+					c.Val = iv
+				}
 			}
 		}
 		return &Term{Op: "ptr", Cell: c, Typ: x.Type()}
@@ -900,6 +958,10 @@ func (w *Walker) step(fr *frame, in ssa.Instruction) {
 			fr.env[x] = &Term{Op: "index", Args: []*Term{base, idx}, Typ: x.Type()}
 		}
 	case *ssa.Lookup:
+		if t, ok := w.lookupDispatch(w.val(fr, x.X), w.val(fr, x.Index), x); ok {
+			fr.env[x] = t
+			break
+		}
 		if t, ok := w.tableLookup(w.val(fr, x.X), w.val(fr, x.Index), fr, x); ok {
 			fr.env[x] = t
 			return
@@ -934,7 +996,14 @@ func (w *Walker) step(fr *frame, in ssa.Instruction) {
 	case *ssa.MakeSlice:
 		ln := w.val(fr, x.Len)
 		et := x.Type().Underlying().(*types.Slice).Elem()
-		if n, ok := ln.Int64(); ok && n >= 0 && n <= 256 {
+		n, ok := ln.Int64()
+		if !ok {
+			// a length the path condition has pinned to one value (an assumed field count, a checked length)
+			if reg, has := w.state.Ints[ln.String()]; has && len(reg) == 1 && reg[0].Lo == reg[0].Hi {
+				n, ok = reg[0].Lo, true
+			}
+		}
+		if ok && n >= 0 && n <= 256 {
 			c := w.newCell("makeslice", types.NewArray(et, n), true)
 			fr.env[x] = &Term{Op: "sref", Cell: c, Typ: x.Type(), Args: []*Term{mkInt(0, types.Typ[types.Int]), mkInt(n, types.Typ[types.Int])}}
 		} else {
@@ -1190,6 +1259,10 @@ func (w *Walker) indexAddr(base, idx *Term, x *ssa.IndexAddr, fn *ssa.Function, 
 		sel = fmt.Sprintf("#%d", n)
 	} else {
 		sel = "#" + idx.String()
+		if w.symIdx == nil {
+			w.symIdx = map[string]*Term{}
+		}
+		w.symIdx[sel] = idx
 	}
 	switch base.Op {
 	case "ptr": // pointer to array
@@ -1442,6 +1515,9 @@ func (w *Walker) call(fr *frame, c *ssa.CallCommon, in ssa.Instruction, rt types
 		return &Term{Op: "tuple", Args: res, Typ: rt}
 	}
 	if t := w.stdModel(name, args, rt); t != nil {
+		return t
+	}
+	if t := w.reflectModel(name, callee, args, rt); t != nil {
 		return t
 	}
 	if t := w.textModel(name, args, rt); t != nil {
@@ -1815,6 +1891,61 @@ func (w *Walker) builtin(name string, args []*Term, in ssa.Instruction, rt types
 	return t
 }
 
+// ElemsOf: the elements of a slice-valued term whose extent is known (a literal, a slice of a local array, a
+// slice of an array inside a folded table), as terms; nil otherwise.
+func (w *Walker) ElemsOf(t *Term) []*Term {
+	switch t.Op {
+	case "slicev":
+		return t.Args
+	case "sref":
+		return srefElems(t)
+	case "slice":
+		base := t.Args[0]
+		if base == nil || base.Op != "ptr" || base.Cell == nil || base.Cell.Val == nil {
+			return nil
+		}
+		v := base.Cell.Val
+		for _, s := range base.Path {
+			if it, ok := w.symIdx[s]; ok && strings.HasPrefix(s, "#") && v.Op == "slicev" {
+				v = &Term{Op: "index", Args: []*Term{v, it}, Typ: elemType(v.Typ)}
+				continue
+			}
+			v = project(v, s)
+		}
+		if v.Typ == nil {
+			return nil
+		}
+		at, ok := v.Typ.Underlying().(*types.Array)
+		if !ok || at.Len() > 64 {
+			return nil
+		}
+		lo, hi := int64(0), at.Len()
+		if t.Args[1] != nil {
+			n, ok := t.Args[1].Int64()
+			if !ok {
+				return nil
+			}
+			lo = n
+		}
+		if len(t.Args) > 2 && t.Args[2] != nil {
+			n, ok := t.Args[2].Int64()
+			if !ok {
+				return nil
+			}
+			hi = n
+		}
+		if lo < 0 || hi > at.Len() || lo > hi {
+			return nil
+		}
+		var out []*Term
+		for i := lo; i < hi; i++ {
+			out = append(out, project(v, fmt.Sprintf("#%d", i)))
+		}
+		return out
+	}
+	return nil
+}
+
 func srefElems(s *Term) []*Term {
 	lo, _ := s.Args[0].Int64()
 	hi, _ := s.Args[1].Int64()
@@ -1842,6 +1973,28 @@ func (w *Walker) decide(c *Term) bool {
 	case "iface":
 		return w.decide(c.Args[0])
 	}
+	if w.Finite {
+		if leaf, sat, uns, ok := w.finiteSplitBool(c); ok {
+			lk := leaf.String()
+			switch {
+			case uns.Empty() && !sat.Empty():
+				return true
+			case sat.Empty() && !uns.Empty():
+				return false
+			case sat.Empty() && uns.Empty():
+				w.abort("infeasible", "empty region for "+lk)
+			}
+			res := w.choose(2, lk) == 0
+			if res {
+				w.state.Ints[lk] = sat
+			} else {
+				w.state.Ints[lk] = uns
+			}
+			w.state.IntT[lk] = leaf
+			w.logDecision(fmt.Sprintf("%s=%v", cut(c.String(), 60), res))
+			return res
+		}
+	}
 	return w.boolAtom(c.String(), c)
 }
 
@@ -1866,7 +2019,7 @@ func nilness(t *Term) int {
 			return 1
 		}
 		return 0
-	case "ptr", "closure", "mapv", "sref", "slicev", "struct":
+	case "ptr", "closure", "mapv", "sref", "slicev", "struct", "rtype":
 		return 0
 	case "iface":
 		return 0 // an interface holding a value is never a nil interface
